@@ -117,6 +117,11 @@ func runKeepAlive(steps []kaStep, k, req int, unit time.Duration) string {
 		switch st.Expect {
 		case "up":
 			if !ca.IsZero() {
+				if ca.Sub(lastSend) >= time.Duration(k)*time.Second {
+					// this process was held up (loaded machine) and did not send in time: the broker was right to
+					// close; the schedule says nothing
+					return "LATE"
+				}
 				return fmt.Sprintf("step %d: the client sent a packet every %v or less (KeepAlive %ds) but the broker closed the connection %v after the last packet",
 					i, time.Duration(st.Gap)*unit, k, ca.Sub(lastSend).Round(10*time.Millisecond))
 			}
@@ -133,6 +138,9 @@ func runKeepAlive(steps []kaStep, k, req int, unit time.Duration) string {
 				_, err = m.c.Write(pkt(0x30, append(lp([]byte("ka/t")), 'x')))
 			}
 			if err != nil {
+				if time.Since(lastSend) >= time.Duration(k)*time.Second {
+					return "LATE"
+				}
 				return fmt.Sprintf("step %d: write failed although the client was active: %v", i, err)
 			}
 			lastSend = time.Now()
@@ -215,7 +223,9 @@ func cmdKeepAlive(a Args) {
 			defer mu.Unlock()
 			res.Evaluations++
 			res.Steps += len(s)
-			if strings.HasPrefix(d, "INFRA") {
+			if d == "LATE" {
+				res.Counts["late"]++
+			} else if strings.HasPrefix(d, "INFRA") {
 				res.Notes = append(res.Notes, d)
 				res.Counts["infra"]++
 			} else if d != "" {
